@@ -1,8 +1,8 @@
 SPECIFICATION TSpec
 CONSTANTS
   Users = {"u1", "u2", "u3"}
-  Dirs = {"D1", "D2", "D3"}
-  Files = {"f1", "f2", "f3"}
+  Dirs = {"D1", "D2", "D3", "D4"}
+  Files = {"f1", "f2", "f3", "f4"}
   Variants = {"exact", "case", "sep", "fwd"}
   Modes = {"everyone", "friends", "users"}
   UserSets = {{}}
@@ -18,6 +18,8 @@ CONSTANTS
   FoldExcluded = TRUE
   DirReplyLocks = TRUE
   ScanDirCycles = TRUE
+  AlwaysAccumulate = TRUE
+  FlagsTakenAtStart = TRUE
   RevertWithinTick = FALSE
 CONSTRAINT VisibleOnlyIfEntitledByMode
 CONSTRAINT NoExcludedPhrase
